@@ -109,3 +109,93 @@ func Each(i, n int, f func(name, src string)) {
 		}
 	}
 }
+
+// Layout is a Go expression (or parameter list, statement head, attribute list) cut into tokens;
+// the family writes it with every assignment of the gap alphabet to the places before, between and
+// after the tokens. A spelling the parser does not accept is simply not a member.
+type Layout struct {
+	Name      string
+	Pre, Post string // the template body around the tokens
+	Toks      []string
+	Top       bool // Pre/Post are a whole top-level declaration, not a body line of T
+}
+
+var Layouts = []Layout{
+	{Name: "attr", Pre: "\t<div title={", Post: "}>x</div>", Toks: []string{`s`, `+`, `"a"`}},
+	{Name: "attr-call", Pre: "\t<div title={", Post: "}>x</div>", Toks: []string{`up(`, `s`, `,`, `"x"`, `)`}},
+	{Name: "attr-list", Pre: "\t<div title={", Post: "}>x</div>", Toks: []string{`s`, `,`}},
+	{Name: "class", Pre: "\t<div class={", Post: "}>x</div>", Toks: []string{`"a"`, `,`, `templ.KV("b", b)`, `,`}},
+	{Name: "class-map", Pre: "\t<div class={", Post: "}>x</div>", Toks: []string{`"a"`, `,`, `map[string]bool{"b": b`, `,`, `}`, `,`}},
+	{Name: "class-one", Pre: "\t<div id=\"i\" class={", Post: "}></div>", Toks: []string{`s`, `,`, `s`}},
+	{Name: "style", Pre: "\t<div style={", Post: "}>x</div>", Toks: []string{`templ.SafeCSS(`, `"color:red"`, `)`}},
+	{Name: "bool-attr", Pre: "\t<input disabled?={", Post: "}/>", Toks: []string{`b`, `&&`, `b`}},
+	{Name: "spread", Pre: "\t<div {", Post: "...}>x</div>", Toks: []string{`attrs`}},
+	{Name: "onclick", Pre: "\t<button onclick={", Post: "}>x</button>", Toks: []string{`js(`, `)`}},
+	{Name: "href", Pre: "\t<a href={", Post: "}>x</a>", Toks: []string{`templ.URL(`, `s`, `)`}},
+	{Name: "text", Pre: "\t<p>{", Post: "}</p>", Toks: []string{`s`, `+`, `s`}},
+	{Name: "text-call", Pre: "\t{", Post: "}", Toks: []string{`up(`, `s`, `,`, `"x"`, `,`, `)`}},
+	{Name: "call-args", Pre: "\t@c2(", Post: ")", Toks: []string{`s`, `,`, `b`}},
+	{Name: "call-args-comma", Pre: "\t@c2(", Post: ")", Toks: []string{`s`, `,`, `b`, `,`}},
+	{Name: "call-args-block", Pre: "\t@c2(", Post: ") {\n\t\tinner\n\t}", Toks: []string{`up(`, `s`, `)`, `,`, `b`}},
+	{Name: "raw-go", Pre: "\t{{", Post: "}}", Toks: []string{`v`, `:=`, `s`}},
+	{Name: "raw-go-two", Pre: "\t{{", Post: "}}\n\t{ v }", Toks: []string{`v`, `:=`, `up(`, `s`, `)`, `;`, `_ = v`}},
+	{Name: "if", Pre: "\tif ", Post: "{\n\t\tyes\n\t}", Toks: []string{`b`, `&&`, `len(xs) > 0`}},
+	{Name: "if-call", Pre: "\tif ", Post: "{\n\t\tyes\n\t}", Toks: []string{`up(`, `s`, `)`, `==`, `"a"`}},
+	{Name: "else-if", Pre: "\tif b {\n\t\tyes\n\t} else if ", Post: "{\n\t\tno\n\t}", Toks: []string{`!b`, `||`, `s == "x"`}},
+	{Name: "for", Pre: "\tfor ", Post: "{\n\t\t{ x }\n\t}", Toks: []string{`_, x`, `:=`, `range`, `xs`}},
+	{Name: "for-3", Pre: "\tfor ", Post: "{\n\t\ti\n\t}", Toks: []string{`i := 0`, `;`, `i < 2`, `;`, `i++`}},
+	{Name: "switch", Pre: "\tswitch ", Post: "{\n\t\tcase \"a\":\n\t\t\tone\n\t}", Toks: []string{`up(`, `s`, `)`}},
+	{Name: "case", Pre: "\tswitch s {\n\t\tcase ", Post: ":\n\t\t\tone\n\t}", Toks: []string{`"a"`, `,`, `"b"`}},
+	{Name: "cond-attr", Pre: "\t<div if ", Post: "{ class=\"a\" }>x</div>", Toks: []string{`b`, `&&`, `b`}},
+	{Name: "cond-attr-body", Pre: "\t<div if b {", Post: "}>x</div>", Toks: []string{`class="a"`, `id="i"`}},
+	{Name: "attrs", Pre: "\t<div", Post: ">x</div>", Toks: []string{`id="i"`, `title={ s }`, `hidden`}},
+	{Name: "attrs-void", Pre: "\t<input", Post: "/>", Toks: []string{`type="text"`, `value={ s }`}},
+	{Name: "attrs-cond", Pre: "\t<div", Post: ">x</div>", Toks: []string{`id="i"`, `if b { class="a" }`, `{ attrs... }`}},
+	{Name: "params", Top: true, Pre: "templ L(", Post: ") {\n\t<i></i>\n}\n", Toks: []string{`s`, `string`, `,`, `b`, `bool`}},
+	{Name: "params-comma", Top: true, Pre: "templ L(", Post: ") {\n\t<i></i>\n}\n", Toks: []string{`s, t string`, `,`, `b bool`, `,`}},
+	{Name: "css-prop", Top: true, Pre: "css k(w string) {\n\tcolor: red;\n\twidth: {", Post: "};\n}\n", Toks: []string{`up(`, `w`, `)`}},
+	{Name: "script-params", Top: true, Pre: "script j(", Post: ") {\n\tconsole.log(a);\n}\n", Toks: []string{`a`, `string`, `,`, `n`, `int`}},
+	{Name: "receiver", Top: true, Pre: "templ (", Post: ") M() {\n\t<i></i>\n}\n", Toks: []string{`r`, `recv`}},
+}
+
+const layoutHeader = "func up(a string, more ...string) string {\n\treturn a\n}\n\ntype recv struct{}\n\ntempl c2(a string, b bool) {\n\t<i>{ a }{ children... }</i>\n}\n\n"
+
+// QuickGaps / ThoroughGaps are the gap alphabets. Gaps between attributes and parameters that must be
+// whitespace are simply rejected by the parser when spelled "".
+var QuickGaps = []string{"", " ", "\n"}
+var ThoroughGaps = []string{"", " ", "\n", "\t", "\n\n", "\n\t\t"}
+
+// EachLayout calls f with every member of the layout family over the given gap alphabet; shard i of n.
+func EachLayout(i, n int, gaps []string, f func(name, src string)) {
+	k := 0
+	for _, l := range Layouts {
+		places := len(l.Toks) + 1
+		total := 1
+		for p := 0; p < places; p++ {
+			total *= len(gaps)
+		}
+		for code := 0; code < total; code++ {
+			k++
+			if k%n != i {
+				continue
+			}
+			var sb strings.Builder
+			c := code
+			for p := 0; p < places; p++ {
+				sb.WriteString(gaps[c%len(gaps)])
+				c /= len(gaps)
+				if p < len(l.Toks) {
+					sb.WriteString(l.Toks[p])
+				}
+			}
+			body := l.Pre + sb.String() + l.Post
+			var src string
+			if l.Top {
+				src = header + layoutHeader + body + "\n" + "templ T(s string, b bool, xs []string, attrs templ.Attributes) {\n\t<i></i>\n}\n"
+			} else {
+				src = header + layoutHeader + "templ T(s string, b bool, xs []string, attrs templ.Attributes) {\n" + body + "\n}\n"
+			}
+			f(l.Name, src)
+		}
+	}
+}
